@@ -39,8 +39,10 @@ class CrashFile(object):
         self.events = []
 
     def write(self, data):
-        if not isinstance(data, bytes):
+        if isinstance(data, str):
             raise TypeError("binary")
+        if isinstance(data, (bytearray, memoryview)):
+            data = bytes(data)  # real binary files take any bytes-like object and copy it at once
         if data:
             self.events.append(("write", data))
             if self.sched is not None:
@@ -281,6 +283,56 @@ def E2() -> bool:
     return run(body_E2, "X", {})
 
 
+# -- E3: the process dies with very many tasks unfinished ------------------------------------------
+def body_E3(ctx):
+    """W top-level actions are started (one message each) and none is finished when the process
+    is killed after the k-th logging call: every action whose start line is in the file appears in
+    the parse result, as started and not ended, with the messages logged so far."""
+    from eliot import start_action
+
+    W = [5, 1000, 1001, 1500][ctx.choose(4, "unfinished tasks at the crash")]
+    f = CrashFile()
+    Logger._destinations.add(FileDestination(file=f))
+    open_actions = []
+    for i in range(W):
+        a = start_action(action_type="job", n=i)
+        with a.context():
+            a.log("job:progress", n=i)
+        open_actions.append(a)
+    writes = [e[1] for e in f.events if e[0] == "write"]
+    cut = [len(writes), len(writes) - 1, len(writes) // 2][ctx.choose(3, "lines in the file at the crash")]
+    lines = writes[:cut]
+    msgs = [json.loads(w) for w in lines]
+    try:
+        tasks = list(Parser.parse_stream(msgs))
+    except Exception as e:
+        ctx.fail("parsing the log of a process killed with %d open tasks raised %r" % (W, e))
+    started = {m["task_uuid"] for m in msgs if m.get("action_status") == "started"}
+    seen = {}
+    for t in tasks:
+        seen[t.root().task_uuid] = seen.get(t.root().task_uuid, 0) + 1
+    missing = started - set(seen)
+    ctx.check(not missing, "killed with %d open tasks: %d actions whose start line is in the file do not appear in the parse result (%d tasks returned)", W, len(missing), len(tasks))
+    ctx.check(all(v == 1 for v in seen.values()), "a task was reported more than once")
+    for t in tasks:
+        ctx.check(not t.is_complete(), "an unfinished task is reported complete")
+        root = t.root()
+        ctx.check(isinstance(root, WrittenAction) and root.end_message is None and root.start_message is not None, "unfinished action shown as %r", root)
+        n_in_file = sum(1 for m in msgs if m["task_uuid"] == root.task_uuid)
+        ctx.check(1 + len(root.children) == n_in_file, "task %s: %d of its lines are in the file, the tree shows %d", root.task_uuid, n_in_file, 1 + len(root.children))
+    ctx.nontrivial((W, cut))
+    if W > 1000:
+        ctx.reached("wide")
+    ctx.sample({"open_tasks": W, "lines_in_file": cut, "tasks_parsed": len(tasks)})
+
+
+def E3() -> bool:
+    """
+    post: _
+    """
+    return run(body_E3, "X", {})
+
+
 def _shards(tier):
     N, D = (4, 3) if tier == "quick" else (5, 3)
     profiles = [{}, {"open": 1}, {"open": 3}, {"msg": 4}, {"exc": 2}, {"fin": 1}, {"empty_type": 1}, {"under_remote": 1, "open": 5}, {"under_remote": 1}, {"stream": "text-write-through"}]
@@ -292,6 +344,8 @@ def _shards(tier):
 
 
 OBLIGATIONS_TAIL = [
+    Ob("E3", E3, body_E3, "X", desc="a process killed with 5 / 1000 / 1001 / 1500 unfinished top-level actions: each appears, started and not ended, with its messages", functions=["FileDestination.__call__", "Parser.parse_stream", "Parser.add", "Parser.incomplete_tasks"],
+       twin=[{"twin_label": "wide"}], timeout={"quick": 100, "thorough": 300}, bounds={"quick": "4 sizes x 3 crash points (after the last line, before it, half way)"}),
     Ob(
         "E2",
         E2,
